@@ -70,6 +70,9 @@ def units(tier, seed):
             us.append({"kind": "multi", "L": L, "mode": mode})
     for mode in ("list-FT", "bool-T"):
         us.append({"kind": "multisearch", "mode": mode, "n": 6, "max_dev": 2 if tier == "quick" else 3, "max_execs": 1500 if tier == "quick" else 20000})
+    for mode in ("max", "min", "multi"):
+        for n in (1, 2, 3, 4) if tier == "quick" else (1, 2, 3, 4, 5):
+            us.append({"kind": "helpers", "mode": mode, "n": n})
     for algo in ("gp", "rs", "hc", "1+1"):
         for minimize in (False, True):
             for n in (3, 6) if tier == "quick" else (3, 6, 9):
@@ -353,7 +356,81 @@ def run_multisearch(unit) -> UnitResult:
     return r
 
 
+def run_helpers(unit) -> UnitResult:
+    """geneticengine.problems.helpers on every population over a small fitness alphabet: best_individual is at least as
+    good as every member, is_better is the strict order of the declared direction, sort_population is a permutation
+    (by identity, duplicates included) from best to worst."""
+    from geneticengine.problems import helpers as H
+
+    r = UnitResult()
+    n, mode = unit["n"], unit["mode"]
+    rep = StubRepresentation(2)
+    inf = float("inf")
+    alpha = [0.0, 1.0, 2.0] if n >= 4 else [0.0, 1.0, 2.0, -1.5, inf, -inf]
+    for fits in itertools.product(alpha, repeat=n):
+        for dup in (False, True) if n >= 2 else (False,):
+            table = dict(enumerate(fits))
+            if mode in ("max", "min"):
+                problem = SingleObjectiveProblem(lambda p: table[p.v], minimize=(mode == "min"))
+                good = (lambda v: -v) if mode == "min" else (lambda v: v)
+            else:  # two objectives, the second minimised: the documented default aggregate
+                if any(abs(v) == inf for v in fits):
+                    continue
+                problem = MultiObjectiveProblem([False, True], lambda p: [table[p.v], 2.0 - table[p.v] / 2])
+                good = lambda v: v - (2.0 - v / 2)  # noqa
+            inds = []
+            for i in range(n):
+                ind = Individual(rep._new(i), rep)
+                ind.genotype.v = i
+                inds.append(ind)
+            if dup:
+                inds[-1] = inds[0]
+            SequentialEvaluator().evaluate(problem, inds)
+            vals = [good(table[i.genotype.v]) for i in inds]
+            w = {"unit": unit, "fitness": list(fits), "dup": dup}
+            r.executions += 1
+            r.count("helper_cases")
+            if len(set(vals)) < len(vals):
+                r.nontrivial += 1
+            try:
+                b = H.best_individual(list(inds), problem)
+                if all(b is not i for i in inds) or good(table[b.genotype.v]) < max(vals):
+                    r.add_violation(Violation(PROP, "helpers.best_individual", "not-the-best", {"mode": mode}, w,
+                                              f"{mode} fitness {fits}: best_individual returned the one with fitness {table[b.genotype.v]}"))
+                for a, c in itertools.product(range(len(inds)), repeat=2):
+                    got = H.is_better(problem, inds[a], inds[c])
+                    if bool(got) != (vals[a] > vals[c]):
+                        r.add_violation(Violation(PROP, "helpers.is_better", "wrong-order", {"mode": mode, "tie": vals[a] == vals[c]}, w,
+                                                  f"{mode}: is_better({table[inds[a].genotype.v]}, {table[inds[c].genotype.v]}) = {got}"))
+                        break
+                given = list(inds)
+                out = H.sort_population(given, problem)
+                rest = list(inds)
+                ok = len(out) == len(inds)
+                for o in out:
+                    for j, x in enumerate(rest):
+                        if x is o:
+                            rest.pop(j)
+                            break
+                    else:
+                        ok = False
+                outv = [good(table[o.genotype.v]) for o in out]
+                if not ok or rest or any(outv[k] < outv[k + 1] for k in range(len(outv) - 1)):
+                    r.add_violation(Violation(PROP, "helpers.sort_population", "not-a-sorted-permutation", {"mode": mode, "dup": dup}, w,
+                                              f"{mode} fitness {[table[i.genotype.v] for i in inds]} (same object twice: {dup}): sorted to "
+                                              f"{[table[o.genotype.v] for o in out]}"))
+                if len(given) != len(inds) or any(x is not y for x, y in zip(given, inds)):
+                    r.add_violation(Violation(PROP, "helpers.sort_population", "argument-reordered", {"mode": mode}, w, "sort_population changed the list it was given"))
+            except Exception as e:  # noqa
+                r.add_violation(Violation(PROP, "helpers", "raised", {"mode": mode, "exc": type(e).__name__}, w, f"{mode} fitness {fits}: {exc_brief(e)}"))
+    r.states = len(alpha) ** n
+    r.samples.append({"helpers": mode, "population": n})
+    return r
+
+
 def run_unit(unit) -> UnitResult:
+    if unit["kind"] == "helpers":
+        return run_helpers(unit)
     return {"single": run_single, "multi": run_multi, "search": run_search, "multisearch": run_multisearch}[unit["kind"]](unit)
 
 
